@@ -31,8 +31,6 @@ structure RCookie where
   expiry : Option Int
 deriving Repr, DecidableEq
 
-def lowerCp (c : Nat) : Nat := if 65 ≤ c && c ≤ 90 then c + 32 else c
-
 /-- §5.1.3: identical, or `host` ends with `"." ++ d` and is not an IP address -/
 def domainMatch (host d : Str) : Bool :=
   host == d || (!isIp host && (46 :: d).isSuffixOf host)
